@@ -1,3 +1,124 @@
-import CGV.Model.Strip
+/-
+  C13 — bonding descriptors are separated from fragment text exactly.
+
+  Model: `strip` / `stripAux` / `stripStep` (CGV.Model.Strip) = strip_bonding_descriptors with its
+  PeekIter and ring-number collection.  Proved for descriptor lists of any length, any kinds/labels and
+  orders 0-4 written after an atom; the position-generic statement ("after any atom of any fragment
+  text") is validated by the correspondence + oracle on generated fragment texts (partial).
+-/
+import CGV.Lemmas.Bonding
 namespace CGV.C13
+open CGV Gen
+
+/-- one-letter atoms of the organic subset (and their aromatic forms) -/
+def plainAtoms : List Char := ['C', 'N', 'O', 'S', 'P', 'F', 'B', 'I', 'c', 'n', 'o', 's']
+
+/-- what the loop does with a plain atom that is followed by a descriptor or a bond symbol -/
+theorem atom_step (e : Char) (he : e ∈ plainAtoms) (next : Char) (hn : next ∈ ['[', '.', '=', '#', '$'])
+    (rest : Str) (st : StripState) :
+    stripStep e (next :: rest) st = .ok (next :: rest,
+      { st with smile := st.smile ++ [e], currentOrder := none, prevNode := st.nodeCount, nodeCount := st.nodeCount + 1 }) := by
+  have key : ∀ e ∈ plainAtoms, ∀ c ∈ ['[', '.', '=', '#', '$'],
+      (e == '[') = false ∧ (e == '(') = false ∧ (e == ')') = false ∧ bondToOrder2.lookup e = none ∧
+      (e == '%' || e.isDigit) = false ∧ pyStrIn [e] passThroughChars = false ∧ pyStrIn [e] ezChars = false ∧
+      twoLetterElements.contains [e, c] = false := by decide +kernel
+  obtain ⟨h1, h2, h3, h4, h5, h6, h7, h8⟩ := key e he next hn
+  have h8' : ¬ [e, next] ∈ twoLetterElements := by simpa using h8
+  simp [stripStep, h1, h2, h3, h4, h5, h6, h7, h8', pure, Except.pure]
+
+theorem fmt_head (d : WFDesc) : ∃ c rest, d.fmt = c :: rest ∧ c ∈ ['[', '.', '=', '#', '$'] := by
+  have ho := d.ho
+  have : d.o = 0 ∨ d.o = 1 ∨ d.o = 2 ∨ d.o = 3 ∨ d.o = 4 := by omega
+  have f0 : orderSym 0 = ['.'] := by decide +kernel
+  have f1 : orderSym 1 = [] := by decide +kernel
+  have f2 : orderSym 2 = ['='] := by decide +kernel
+  have f3 : orderSym 3 = ['#'] := by decide +kernel
+  have f4 : orderSym 4 = ['$'] := by decide +kernel
+  rcases this with h | h | h | h | h <;> simp [WFDesc.fmt, h, f0, f1, f2, f3, f4]
+
+theorem fmt_length (d : WFDesc) : 2 ≤ d.fmt.length := by
+  simp [WFDesc.fmt, WFDesc.kl]; omega
+
+theorem flat_length (ds : List WFDesc) : 2 * ds.length ≤ (ds.flatMap (·.fmt)).length := by
+  induction ds with
+  | nil => simp
+  | cons d ds ih => simp only [List.flatMap_cons, List.length_append, List.length_cons]; have := fmt_length d; omega
+
+/-- C13 for descriptors written after an atom: any number of descriptors (all four kinds, any label,
+    orders 0-4 through the bond symbol written before the bracket) after a plain atom — the clean
+    text is the atom alone (symbols that belong to descriptors are removed), every descriptor is
+    reported on that atom, in order, with its order; whatever text follows is processed from exactly
+    that state. -/
+theorem C13_descriptors_after_atom (e : Char) (he : e ∈ plainAtoms) (ds : List WFDesc) (hne : ds ≠ []) (tail : Str)
+    (hascii : ((e :: (ds.flatMap (·.fmt) ++ tail)).any fun c => decide (c.toNat > 127)) = false) :
+    ∃ fuel' st1, tail.length + 1 ≤ fuel' ∧
+      strip (e :: (ds.flatMap (·.fmt) ++ tail)) =
+        (stripAux fuel' tail st1).map (fun st => ⟨st.smile, st.bonding, st.ez, st.attrs⟩) ∧
+      st1.smile = [e] ∧ st1.bonding.lookup 0 = some (ds.map (·.text)) ∧ st1.ez = [] ∧ st1.attrs = [] ∧
+      st1.nodeCount = 1 ∧ st1.prevNode = 0 ∧ st1.currentOrder = none ∧ st1.anchor = [] := by
+  obtain ⟨d0, ds', rfl⟩ : ∃ d0 ds', ds = d0 :: ds' := by
+    cases ds with
+    | nil => exact absurd rfl hne
+    | cons d ds' => exact ⟨d, ds', rfl⟩
+  obtain ⟨c, r, hfmt, hc⟩ := fmt_head d0
+  let st0 : StripState := { smile := [e], nodeCount := 1, prevNode := 0, currentOrder := none }
+  have hflat := flat_length (d0 :: ds')
+  -- fuel bookkeeping: |text| + 1 = 1 (atom) + (k + 2n) with k ≥ |tail| + 1
+  have hsplit : (e :: ((d0 :: ds').flatMap (·.fmt) ++ tail)).length + 1 =
+      ((((d0 :: ds').flatMap (·.fmt)).length - 2 * (d0 :: ds').length + tail.length + 1) + 2 * (d0 :: ds').length) + 1 := by
+    rw [List.length_cons, List.length_append]
+    generalize ((d0 :: ds').flatMap (·.fmt)).length = L at hflat ⊢
+    generalize (d0 :: ds').length = n at hflat ⊢
+    omega
+  obtain ⟨fuel', hle, hrun⟩ := stripAux_descs tail (d0 :: ds') st0
+    (((d0 :: ds').flatMap (·.fmt)).length - 2 * (d0 :: ds').length + tail.length + 1)
+    (by show (1 : Nat) ≠ 0; decide) rfl
+  refine ⟨fuel', (d0 :: ds').foldl afterDesc st0, by omega, ?_, ?_⟩
+  · unfold strip
+    simp only [hascii, Bool.false_eq_true, if_false, hsplit]
+    rw [stripAux]
+    have hstep := atom_step e he c hc (r ++ (ds'.flatMap (·.fmt) ++ tail)) {}
+    have htext : (d0 :: ds').flatMap (·.fmt) ++ tail = c :: (r ++ (ds'.flatMap (·.fmt) ++ tail)) := by
+      simp [List.flatMap_cons, hfmt]
+    rw [htext, hstep]
+    simp only [bind, Except.bind]
+    rw [← htext]
+    have hst : ({ smile := ([] : Str) ++ [e], currentOrder := none, prevNode := 0, nodeCount := 0 + 1 } : StripState) = st0 := rfl
+    simp only [List.nil_append] at hst ⊢
+    rw [hrun]
+    cases stripAux fuel' tail ((d0 :: ds').foldl afterDesc st0) <;> rfl
+  · have hf := foldl_afterDesc_fields (d0 :: ds') st0
+    have hb := foldl_afterDesc_bonding (d0 :: ds') st0 (by simp)
+    exact ⟨hf.2.2.2.1, by simpa [st0, List.lookup] using hb, hf.2.2.2.2.1, hf.2.2.2.2.2, hf.1, hf.2.2.1, hf.2.1, by
+      have : ∀ (l : List WFDesc) (s : StripState), (l.foldl afterDesc s).anchor = s.anchor := by
+        intro l; induction l with
+        | nil => intro s; rfl
+        | cons x xs ih => intro s; simp only [List.foldl_cons]; exact ih _
+      exact this _ _⟩
+
+/-- closed form when nothing follows: `C[$a]=[$b]` ↦ clean text `C`, descriptors `$a1`, `$b2` on atom 0 -/
+theorem C13_descriptors_at_end (e : Char) (he : e ∈ plainAtoms) (ds : List WFDesc) (hne : ds ≠ [])
+    (hascii : ((e :: (ds.flatMap (·.fmt) ++ [])).any fun c => decide (c.toNat > 127)) = false) :
+    ∃ out, strip (e :: ds.flatMap (·.fmt)) = .ok out ∧ out.smile = [e] ∧
+      out.bonding.lookup 0 = some (ds.map (·.text)) ∧ out.ez = [] ∧ out.attrs = [] := by
+  obtain ⟨fuel', st1, hle, hs, h1, h2, h3, h4, _⟩ := C13_descriptors_after_atom e he ds hne [] hascii
+  simp only [List.append_nil] at hs
+  have : stripAux fuel' [] st1 = .ok st1 := by cases fuel' <;> rfl
+  rw [this] at hs
+  exact ⟨_, hs, h1, h2, h3, h4⟩
+
+/-! worked instances: the repository's own test strings, by kernel evaluation of the model -/
+example : (strip "[$]COC[$]".toList).map (fun o => (o.smile, o.bonding)) =
+    .ok ("COC".toList, [(0, ["$1".toList]), (2, ["$1".toList])]) := by decide +kernel
+example : (strip "CC=[$a]=[$b]CC".toList).map (fun o => (o.smile, o.bonding)) =
+    .ok ("CCCC".toList, [(1, ["$a2".toList, "$b2".toList])]) := by decide +kernel
+example : (strip "[$]CC1[$]CCC1".toList).map (fun o => (o.smile, o.bonding)) =
+    .ok ("CC1CCC1".toList, [(0, ["$1".toList]), (1, ["$1".toList])]) := by decide +kernel
+example : (strip "C=1[$]CC1".toList).map (fun o => (o.smile, o.bonding)) =
+    .ok ("C=1CC1".toList, [(0, ["$1".toList])]) := by decide +kernel
+example : (strip "C.[$]C".toList).map (fun o => (o.smile, o.bonding)) =
+    .ok ("CC".toList, [(0, ["$0".toList])]) := by decide +kernel
+example : (strip "C(COC[$1])[$2]CCC[$3]".toList).map (fun o => (o.smile, o.bonding)) =
+    .ok ("C(COC)CCC".toList, [(3, ["$11".toList]), (0, ["$21".toList]), (6, ["$31".toList])]) := by decide +kernel
+
 end CGV.C13
